@@ -25,6 +25,27 @@ Definition sop_of (o : op) : sop :=
   | OAssignFill count ch => SAssignFill count ch
   | OSubstr pos count => SSubstr pos count
   | OSwapWith src => SSwapWith src
+  | OAppendCstr a => SAppendCstr a
+  | OAppendStr src => SAppendStr src
+  | OAppendStrSub src pos count => SAppendStrSub src pos count
+  | OAppendViewSub src pos count => SAppendViewSub src pos count
+  | OAssignCstr a => SAssignCstr a
+  | OAssignStrSub src pos count => SAssignStrSub src pos count
+  | OAssignViewSub src pos count => SAssignViewSub src pos count
+  | OInsertCstr index a => SInsertCstr index a
+  | OInsertStrSub index src indexStr count => SInsertStrSub index src indexStr count
+  | OErasePos pos => SErasePos pos
+  | OFreeErase value => SFreeErase value
+  | OFreeEraseIf k => SFreeEraseIf (pred_of k)
+  end.
+
+(* the arguments exist: a basic_inplace_string argument of the same type holds at most Capacity characters;
+   the array behind a string_view argument is shorter than 2^63 *)
+Definition arg_ok (c : Z) (o : op) : Prop :=
+  match o with
+  | OAppendStr src | OAppendStrSub src _ _ | OAssignStrSub src _ _ => zlen src <= c
+  | OAppendViewSub src _ _ | OAssignViewSub src _ _ | OInsertStrSub _ src _ _ => zlen src < 9223372036854775808
+  | _ => True
   end.
 
 (** * lists *)
